@@ -1,6 +1,7 @@
 package main
 
 import (
+	"time"
 	"fmt"
 	"reflect"
 	"strings"
@@ -232,6 +233,29 @@ func (m c17) run(c *Ctx, specs []*TypeSpec, calls []c17call) {
 		if !check(i+1, fmt.Sprintf("after Set #%d", i+1)) {
 			return
 		}
+		if call.Val != nil && call.Val.K == KTime && !call.Val.IsNil() && len(ress) == 2 {
+			// the two implementations hand back the same time value, zone included (what Get returns is a Go
+			// value; whether a library keeps the caller's zone is its choice, but it is one choice)
+			zone := func(v any) string {
+				switch t := v.(type) {
+				case time.Time:
+					return t.Format(time.RFC3339Nano)
+				case *time.Time:
+					if t != nil {
+						return t.Format(time.RFC3339Nano)
+					}
+				}
+				return "?"
+			}
+			var a, b string
+			if pi := Guard(func() { a, b = zone(ress[0].Get(call.Field)), zone(ress[1].Get(call.Field)) }); pi == nil {
+				c.Count("time_zone_comparisons")
+				if a != b {
+					c.Violate("impl-disagree/time-zone", "after Set(%q, %s) the %s resource returns %s and the %s one %s; %s", call.Field, call.Val, implName(specs[0]), a, implName(specs[1]), b, hist(i+1))
+					return
+				}
+			}
+		}
 		if call.IsMany && len(ress) == 2 {
 			// the list is a set as far as its content goes, but what Get hands back is a Go slice: two
 			// implementations given the same call must hand back the same one ("indistinguishable")
@@ -265,6 +289,24 @@ func (m c17) run(c *Ctx, specs []*TypeSpec, calls []c17call) {
 		}); pi != nil {
 			c.Violate("panic@"+pi.Frame+"/"+panicClass(pi.Val)+"/read-GetType.New/"+implName(t), "%s", pi)
 			return
+		}
+		// ... and the reported type is a value of its own: renamed and given one more field, its New() follows it
+		var f2 jsonapi.Resource
+		if pi := Guard(func() {
+			gt0 := res.GetType()
+			gt := gt0.Copy() // GetType hands out the resource's own field tables: edit a copy
+			gt.Name = "zz-renamed"
+			_ = gt.AddAttr(jsonapi.Attr{Name: "zz-more", Type: jsonapi.AttrTypeBool})
+			f2 = gt.New()
+		}); pi == nil && f2 != nil {
+			if n := f2.GetType().Name; n != "zz-renamed" {
+				c.Violate("fresh-of-edited-type/name/"+implName(t), "GetType() renamed to zz-renamed, its New() reports type %q", n)
+				return
+			}
+			if _, ok := f2.Attrs()["zz-more"]; !ok {
+				c.Violate("fresh-of-edited-type/fields/"+implName(t), "GetType() given one more attribute, its New() lacks it (has %d attributes)", len(f2.Attrs()))
+				return
+			}
 		}
 		c.Count("fresh_from_gettype")
 		if cl != "" {
